@@ -578,7 +578,7 @@ class tzfile(_tzinfo):
         ttinfo = []
 
         for i in range(typecnt):
-            ttinfo.append(struct.unpack(">lbb", read(6)))
+            ttinfo.append(struct.unpack(">lbB", read(6)))
 
         abbr = read(charcnt).decode()
 
